@@ -8,7 +8,7 @@ THEOREMS = []  # filled below from the Props file contents expected
 STREAMS = [("C05csr", 500, 20000), ("C05list", 1200, 60000)]
 SHARD = 2500
 ORACLE_ONLY_N = 0
-RULE = ("Csr: histories of add_node/try_add_edge/add_edge/clear_edges/contains_edge/out_degree/slices, 10% out-of-range "
+RULE = ("Csr (from_sorted_edges lists half dense, half sparse with targets beyond the largest source): histories of add_node/try_add_edge/add_edge/clear_edges/contains_edge/out_degree/slices, 10% out-of-range "
         "endpoints, Directed and Undirected, u8/u16/u32/usize; one case in six builds a row of 30..48 neighbours around one "
         "node in ascending, descending or shuffled order (both sides of the 32-neighbour binary-search cutoff) with membership "
         "queries after every insertion past 28; one in twelve feeds from_sorted_edges sorted or perturbed input. "
